@@ -276,8 +276,34 @@ func runC09(c *core.Ctx) {
 		} else {
 			k.AddAllTracked()
 		}
+		var big []string
+		if w.Hist%10 == 3 {
+			// scale: one restore that resolves to 17..150 tracked paths, most of them modified or missing
+			big = k.Populate(17 + k.R.IntN(134))
+			k.goit("add", ".")
+			if k.chance(60) {
+				k.Do("commit")
+			}
+		}
 		steps := c.Pick(36, 42)
 		for i := 0; i < steps; i++ {
+			if big != nil && i%7 == 2 {
+				k.PerturbMany(big)
+				switch k.R.IntN(4) {
+				case 0:
+					k.goit("restore", ".")
+				case 1:
+					k.goit(append([]string{"restore"}, k.tracked()...)...)
+				case 2:
+					if dirs := k.trackedDirs(); len(dirs) > 0 {
+						k.goit("restore", dirs[0], dirs[len(dirs)-1])
+					}
+				default:
+					k.goit("add", ".")
+					k.goit("restore", "--staged", ".")
+				}
+				continue
+			}
 			k.Step()
 		}
 	})
